@@ -20,7 +20,10 @@ THEOREMS = [
     "null_rejected_when_not_nullable",
     "null_boss_enum",
     "restrict_refuses",
+    "restrict_refuses_child",
     "restrict_never_orphans",
+    "restrict_never_orphans_child",
+    "delete_clears_all_backrefs",
     "cascade_terminates",
     "cascade_exact",
     "cascade_exact_of_success",
@@ -37,14 +40,22 @@ THEOREMS = [
 RULE = ("scripted families (every id of the hostile pool — quotes, backslashes, backslash-n, filter keywords, "
         "filter fragments such as `x\" or id != \"`, NUL / non-UTF-8 bytes, a 300-byte id — as the deleted target, "
         "unreferenced / referenced through owner, dep, boss chains, promoted through the child store with unchanged / "
-        "changed / cleared references, deleted with child data, the same id in both stores; under all 8 schema variants) "
+        "changed / cleared references, deleted with child data, the same id in both stores; under all 8 schema variants; "
+        "and, for every combination of which child store declares the mentor fk index / the guard fk constraint and both "
+        "registration orders of the two sibling child stores: an entity holding data in both child stores that refers to "
+        "a B entity through every child fk, deleted through A / C / C2, references moved and cleared through the child "
+        "stores) "
         "plus seeded random histories of 6-31 transactions (1-3 operations each: create B, create A, create through the "
         "child store (fresh id / over an existing plain parent with equal, changed or cleared fk values / over existing "
         "child data), update A and update through the child store with a random field checker incl. re-parenting / "
         "null-out / empty string, delete A directly or through the child store, delete B) over 3-9 A ids and 2-3 B ids "
-        "drawn from the pool (in half of the histories one id names an entity in both stores); after every transaction "
+        "drawn from the pool (in half of the histories one id names an entity in both stores; in three quarters the "
+        "schema additionally draws which of the two child stores declares a mentor fk index / a guard fk constraint and "
+        "their registration order; creates and updates go through either child store, also over an entity that already "
+        "holds data of the sibling); after every transaction "
         "the canonicalised boltz.Traverse dump, the surviving ids, the stored fk values, GetRelatedEntitiesIdList of "
-        "every back-reference field, the child store's view of every entity and the error enum are compared. "
+        "every back-reference field (things, minions, mentees1, mentees2), each child store's view of every entity and "
+        "the error enum are compared. "
         "non-trivial = the history contains a refused delete (refexists), a cascading delete that removed >= 2 "
         "entities, or a rejected write (notfound / null-not-allowed); distinct = (variant, sequence of results and "
         "coarse digests)")
@@ -74,16 +85,23 @@ def pretty_op(op):
             m = int(f[2])
             flds = ["owner", "boss", "dep"] if m >= 8 else [n for b, n in ((1, "owner"), (2, "boss"), (4, "dep")) if m & b]
             return {"updateA": _unhex(f[1]), "fields": flds, "owner": _fv(f[3]), "boss": _unhex(f[4]), "dep": _fv(f[5])}
-        if f[0] == "cc":
-            return {"createThroughChildStore": _unhex(f[1]), "owner": _fv(f[2]), "boss": _unhex(f[3]), "dep": _fv(f[4]),
-                    "tag": _fv(f[5])}
-        if f[0] == "uc":
+        if f[0] in ("cc", "c2"):
+            d = {"createThroughChildStore" + ("C2" if f[0] == "c2" else "C"): _unhex(f[1]), "owner": _fv(f[2]),
+                 "boss": _unhex(f[3]), "dep": _fv(f[4]), "tag": _fv(f[5])}
+            if len(f) >= 8:
+                d.update({"mentor": _fv(f[6]), "guard": _fv(f[7])})
+            return d
+        if f[0] in ("uc", "u2"):
             m = int(f[2])
-            flds = ["owner", "boss", "dep", "tag"] if m & 8 else [n for b, n in ((1, "owner"), (2, "boss"), (4, "dep"), (16, "tag")) if m & b]
-            return {"updateThroughChildStore": _unhex(f[1]), "fields": flds, "owner": _fv(f[3]), "boss": _unhex(f[4]),
-                    "dep": _fv(f[5]), "tag": _fv(f[6])}
-        if f[0] == "dc":
-            return {"deleteThroughChildStore": _unhex(f[1])}
+            names = ((1, "owner"), (2, "boss"), (4, "dep"), (16, "tag"), (32, "mentor"), (64, "guard"))
+            flds = [n for _, n in names] if m & 8 else [n for b, n in names if m & b]
+            d = {"updateThroughChildStore" + ("C2" if f[0] == "u2" else "C"): _unhex(f[1]), "fields": flds,
+                 "owner": _fv(f[3]), "boss": _unhex(f[4]), "dep": _fv(f[5]), "tag": _fv(f[6])}
+            if len(f) >= 9:
+                d.update({"mentor": _fv(f[7]), "guard": _fv(f[8])})
+            return d
+        if f[0] in ("dc", "d2"):
+            return {"deleteThroughChildStore" + ("C2" if f[0] == "d2" else "C"): _unhex(f[1])}
         if f[0] == "da":
             return {"deleteA": _unhex(f[1])}
         if f[0] == "db":
@@ -96,7 +114,10 @@ def pretty_op(op):
 def pretty_case(case):
     f = case.split(" ")
     v = int(f[1]) if len(f) > 1 and f[1].isdigit() else -1
-    return {"schema": {"dep_cascade": bool(v & 1), "dep_nullable": bool(v & 2), "dep_registered_first": bool(v & 4)},
+    return {"schema": {"dep_cascade": bool(v & 1), "dep_nullable": bool(v & 2), "dep_registered_first": bool(v & 4),
+                       "C_declares_mentor_fk_index": bool(v & 8), "C2_declares_mentor_fk_index": bool(v & 16),
+                       "C_declares_guard_fk_constraint": bool(v & 32), "C2_declares_guard_fk_constraint": bool(v & 64),
+                       "C2_registered_before_C": bool(v & 128)},
             "transactions": [[pretty_op(o) for o in tx.split(",")] for tx in f[2:] if tx]}
 
 
@@ -168,10 +189,15 @@ def situation_stats(case, impl, stats):
             if k == "cb":
                 B.add(g[1])
             elif k == "ca":
-                A[g[1]] = {"owner": _ev(g[2]), "boss": g[3], "dep": _ev(g[4]), "ext": False}
-            elif k == "cc":
+                A[g[1]] = {"owner": _ev(g[2]), "boss": g[3], "dep": _ev(g[4]), "ext": False, "x": {}}
+            elif k in ("cc", "c2"):
                 cur = A.get(g[1])
-                new = {"owner": _ev(g[2]), "boss": g[3], "dep": _ev(g[4]), "ext": True}
+                ci = 1 if k == "c2" else 0
+                new = {"owner": _ev(g[2]), "boss": g[3], "dep": _ev(g[4]), "ext": True,
+                       "x": dict(cur["x"]) if cur else {}}
+                new["x"][ci] = (_ev(g[6]) if len(g) > 6 else "", _ev(g[7]) if len(g) > 7 else "")
+                if cur is not None and (1 - ci) in cur["x"]:
+                    bump("child create over an entity holding data of the sibling child store")
                 if cur is None:
                     bump("child create, fresh id")
                 else:
@@ -182,12 +208,20 @@ def situation_stats(case, impl, stats):
                     if all(same) and (cur["owner"] or cur["dep"]):
                         bump("child create over existing parent, unchanged non-null owner/dep (seeded C04-4)")
                 A[g[1]] = new
-            elif k in ("ua", "uc"):
+            elif k in ("ua", "uc", "u2"):
                 cur = A.get(g[1])
                 if cur is None:
                     continue
                 m = int(g[2])
                 allf = m >= 8 if k == "ua" else bool(m & 8)
+                if k != "ua":
+                    ci = 1 if k == "u2" else 0
+                    om, og = cur["x"].get(ci, ("", ""))
+                    nm = _ev(g[7]) if (allf or m & 32) and len(g) > 7 else om
+                    ng = _ev(g[8]) if (allf or m & 64) and len(g) > 8 else og
+                    if (nm, ng) != (om, og) and variant & ((8 | 32) << ci):
+                        bump("update through a child store changing a mentor / guard reference it declares")
+                    cur["x"][ci] = (nm, ng)
                 if cur["ext"]:
                     bump("update of an entity with child data through " + ("A (handed to the child store)" if k == "ua" else "the child store"))
                 if allf or m & 1:
@@ -196,9 +230,15 @@ def situation_stats(case, impl, stats):
                     cur["boss"] = g[4]
                 if allf or m & 4:
                     cur["dep"] = _ev(g[5])
-            elif k in ("da", "dc"):
+            elif k in ("da", "dc", "d2"):
                 if g[1] in A:
                     gone = closure([g[1]])
+                    if len(A[g[1]]["x"]) == 2:
+                        bump("delete of an entity holding data in both child stores")
+                        later = 0 if variant & 128 else 1
+                        if variant & (8 << later) and A[g[1]]["x"][later][0]:
+                            bump("delete of an entity holding data in both child stores, the later registered one "
+                                 "declaring a mentor index that lists it (seeded C04-8)")
                     if A[g[1]]["ext"]:
                         bump("delete of an entity with child data (two ProcessBeforeDelete rounds)" +
                              (", with referrers" if len(gone) > 1 else ""))
@@ -387,7 +427,7 @@ def run(ctx, replay_cases=None):
         for tx, tok in zip(txs, (a or "").split(" ")):
             mcnt = re.search(r"@(\d+),(\d+)$", tok)
             cur = (int(mcnt.group(1)), int(mcnt.group(2))) if mcnt else prev
-            if tok.startswith("ok#") and len(tx.split(",")) == 1 and tx[:2] in ("da", "db", "dc"):
+            if tok.startswith("ok#") and len(tx.split(",")) == 1 and tx[:2] in ("da", "db", "dc", "d2"):
                 gone = (prev[0] - cur[0]) + (prev[1] - cur[1])
                 key = f"{tx[:2]} removed {gone if gone < 6 else '6+'}"
                 removed_hist[key] = removed_hist.get(key, 0) + 1
@@ -422,7 +462,8 @@ def run(ctx, replay_cases=None):
         "input_distribution": {"operations": hist_ops, "operation_results": hist_res,
                                "entities_removed_by_successful_single_delete": removed_hist,
                                "situations_reached": situations,
-                               "schema_variants": {str(v): sum(1 for l in lines if l.split(" ")[1:2] == [str(v)]) for v in range(8)}},
+                               "schema_variants_low_bits": {str(v): sum(1 for l in lines if l.split(" ")[1:2] and l.split(" ")[1].isdigit() and int(l.split(" ")[1]) & 7 == v) for v in range(8)},
+                               "schema_variants_child_fk_bits": {str(v): sum(1 for l in lines if l.split(" ")[1:2] and l.split(" ")[1].isdigit() and int(l.split(" ")[1]) >> 3 == v) for v in range(32)}},
     })
     ctx.obligation("correspondence: implementation output = model output on every generated history "
                    "(dump, survivors, related-id lists, error enum after every transaction)",
